@@ -835,3 +835,14 @@ def replay(w, rec):
         run_chain(rec, random.Random(0), w["kind"], w["op"], w["n"], heavy=w["n"] <= 900)
     else:
         rec.inconclusive.append("replay by seed: VERIF_SEED=<seed> ./check C15")
+
+
+# workloads added after the seventh round of seeded changes (DESIGN section 9): part of the rule of this check
+_RULE_ADDENDUM = 'one LP objective in four spellings with loop-built constraints over variables outside the vector'
+_info_base = info
+
+
+def info(tier):  # noqa: F811
+    d = _info_base(tier)
+    d["rule"] = d["rule"] + "; " + _RULE_ADDENDUM
+    return d
